@@ -116,8 +116,13 @@ def generate(seed: int, tier: str = "quick") -> dict:
             add(b, ph, "aave.read", {"view": rp.choice(["health_factor", "max_ltv", "liquidation_threshold"])})
         faults.append({"kind": "same_bar:borrow_repay_with_collateral_" + follow, "bar": b})
     program = [p for _, p in sorted(enumerate(program), key=lambda e: (e[1]["bar"], PHASES.index(e[1]["phase"]), e[0]))]
-    if A.add_bystander(R.sub(seed, "bystander"), world) is not None:
+    by = A.add_bystander(R.sub(seed, "bystander"), world)
+    if by is not None:
         faults.append({"kind": "second_market_of_the_same_kind_registered_first"})
+        if R.sub(seed, "bystander_busy").random() < 0.6:  # the second pool is in use too (positions, reads at the head of the bars)
+            order = ["initialize", "before_bar", "trigger", "on_bar", "after_bar", "notify"]
+            program = A.bystander_program(R.sub(seed, "bystander_ops"), world, by, nb) + program
+            program = [p for _, p in sorted(enumerate(program), key=lambda e: (e[1]["bar"], order.index(e[1]["phase"]), e[0]))]
     return {"property": ID, "seed": seed, "world": world, "program": program, "faults": faults}
 
 
@@ -131,6 +136,8 @@ class FrontierOracle(Oracle):
         return max(sim.bar, 0)
 
     def before_op(self, sim, op):
+        if op.get("m") not in (None, "aave0"):
+            return  # an operation on the second pool: not this oracle\'s market
         self.st0 = RA.read_state(self.m)
 
     def _figures(self, sim, where):
@@ -156,6 +163,8 @@ class FrontierOracle(Oracle):
             self._figures(sim, "bar")
 
     def after_op(self, sim, op, outcome):
+        if op.get("m") not in (None, "aave0"):
+            return
         status = outcome["status"]
         if status == "skipped":
             return
